@@ -364,6 +364,8 @@ func checkC04(p *Program, r *Report) {
 	// the scan reads value bytes from is decided per element
 	checkVLenWidth(p, r, "C04.vlen-width")
 	checkLabelBound(p, r, "C04.label-bound")
+	// the iterator decodes every node into a session it reuses (shared with C10)
+	checkSessionTypestate(p, r, "C04.session-valid")
 }
 
 // checkStop: in ScanFrom, from the branch taken when the callback returns
